@@ -90,6 +90,23 @@ def guarded(fn, limit=4000, wall=20.0, root=None):
         return ("hang", None)
 
 
+def timed(fn, wall=10.0):
+    """Wall-clock watchdog only (generous): ("ok", value) | ("hang", None) | ("exc", exception)."""
+    def on_alarm(signum, frame):
+        raise _Alarm()
+    old = signal.signal(signal.SIGALRM, on_alarm)
+    signal.setitimer(signal.ITIMER_REAL, wall)
+    try:
+        return ("ok", fn())
+    except _Alarm:
+        return ("hang", None)
+    except Exception as exc:   # noqa
+        return ("exc", exc)
+    finally:
+        signal.setitimer(signal.ITIMER_REAL, 0)
+        signal.signal(signal.SIGALRM, old)
+
+
 # ------------------------------------------------------------------ content elements
 class Content(object):
     def __init__(self, m=1, pv=False, aslist=False, take=0):
